@@ -10,6 +10,8 @@ def run(ctx, prog, facts, tier):
     rules_geom.check_traps_nonadjacent(ctx, prog)
     rules_c02.check_move_footprint(ctx, prog, I, mvs)
     rules_c02.check_capture_footprint(ctx, prog, I)
+    from . import rules_c01
+    rules_c01.check_support_argument(ctx, prog)
     rules_c02.check_take_action_composition(ctx, prog, I, mvs if tier != 'quick' else mvs[::3])
     ctx.floor('C02 move modes', ctx.analysed.get('move_modes', 0), len(mvs))
     ctx.exhaustive = tier != 'quick'
